@@ -144,6 +144,17 @@ var c15Stuck int
 
 var c15Cands = candidatePaths([]string{"d", "e", "f", "g", "x", "y"}, 2)
 
+// c15CandsFor: the snapshot of an outcome looks at the usual candidates AND at every path the program names (with its
+// ancestors): an entry left without a parent (MkdirAll d/x/y overlapping Remove d/x) is visible only to someone who knows
+// its name
+func c15CandsFor(prog cProg) []string {
+	var ops []Op
+	for _, g := range prog {
+		ops = append(ops, g...)
+	}
+	return withNamedPaths(c15Cands, ops)
+}
+
 // runSchedule runs the program under the given schedule prefix (then lowest-id-first); returns the
 // outcome and, per step, the enabled goroutines and the one chosen.
 func runSchedule(prog cProg, prefix []int) (out string, enabledAt [][]int, chosen []int, problem string) {
@@ -209,7 +220,7 @@ func runSchedule(prog cProg, prefix []int) (out string, enabledAt [][]int, chose
 			}
 		}
 	}
-	return outcomeKey(res, snapText(Snapshot(fs, c15Cands))), enabledAt, chosen, problem
+	return outcomeKey(res, snapText(Snapshot(fs, c15CandsFor(prog)))), enabledAt, chosen, problem
 }
 
 // exploreAll enumerates every schedule (stateless depth-first search), up to a budget.
@@ -278,7 +289,7 @@ func sequentialOutcomes(prog cProg) map[string]bool {
 				pos[g]++
 			}
 			w.CloseAll()
-			outs[outcomeKey(res, snapText(Snapshot(fs, c15Cands)))] = true
+			outs[outcomeKey(res, snapText(Snapshot(fs, c15CandsFor(prog))))] = true
 		}
 	}
 	rec()
@@ -850,7 +861,7 @@ func runC15Isolation(firstID int) int {
 					continue
 				}
 				if len(res[1]) == len(bops) {
-					key := outcomeKey(res, snapText(Snapshot(fs, c15Cands)))
+					key := outcomeKey(res, snapText(Snapshot(fs, c15CandsFor(prog))))
 					if !sequentialOutcomes(prog)[key] {
 						c.fail(fmt.Sprintf("%s: outcome %s is not the outcome of either order of the two programs", c.Text[0], key), "isolation:mid-transaction:"+bops[0].Kind)
 					}
